@@ -9,5 +9,5 @@ git -C /repo apply "$DIR/patch.diff" || { echo "patch does not apply"; exit 2; }
 /verif/check "$PROP" "$TIER" > "$DIR/check_${PROP}_${TIER}.log" 2>&1
 RC=$?
 git -C /repo checkout -- .
-echo "$ID $PROP $TIER exit=$RC $(grep -c '^VIOLATION' "$DIR/check_${PROP}_${TIER}.log") violation lines; $(grep -m1 '^violation:' "$DIR/check_${PROP}_${TIER}.log" | cut -c1-200)"
+echo "$ID $PROP $TIER exit=$RC $(grep -a -c '^VIOLATION' "$DIR/check_${PROP}_${TIER}.log") violation lines; $(grep -a -m1 '^violation:' "$DIR/check_${PROP}_${TIER}.log" | cut -c1-200)"
 exit $RC
